@@ -87,6 +87,9 @@ type DocConfig struct {
 	TinyObjStm    bool
 	// HugeObjStm makes the wide WriteCompressed call carry more than 10000 objects.
 	HugeObjStm bool
+	// FaxStreams makes every stream a long CCITTFax Group 3 two-dimensional
+	// image (thousands of short rows with end-of-line codes).
+	FaxStreams bool
 	// PlainCatalog leaves the optional catalog entries unset.
 	PlainCatalog bool
 	// EndstreamBodies makes every stream body a long text with lines that start with "endstream".
@@ -628,6 +631,14 @@ func BuildDoc(r *kit.Rand, cfg DocConfig) (*Doc, error) {
 				filters, names, unit = AcceptedFilters(r, cfg.Version, 3)
 			}
 			body := streamBody(r, cfg.PlainBodies)
+			if cfg.FaxStreams {
+				cols := kit.Pick(r, []int{8, 16, 24})
+				fax := pdf.FilterCCITTFax{K: kit.Pick(r, []int{1, 2, 4}), Columns: cols, EndOfLine: true, BlackIs1: r.Bool()}
+				filters = []pdf.Filter{fax}
+				names = []string{fmt.Sprintf("CCITT(K=%d,Columns=%d)", fax.K, cols)}
+				unit = cols / 8
+				body = r.Bytes(unit * (3000 + r.Intn(4000)))
+			}
 			if cfg.EndstreamBodies {
 				switch r.Intn(3) {
 				case 0:
@@ -642,7 +653,7 @@ func BuildDoc(r *kit.Rand, cfg DocConfig) (*Doc, error) {
 				}
 				body = append(body, 'x')
 			}
-			if unit > 1 {
+			if unit > 1 && !cfg.FaxStreams {
 				rows := r.Intn(6)
 				body = r.Bytes(rows * unit)
 			}
